@@ -509,12 +509,9 @@ Fixpoint checked {A} (chk : A -> result unit) (xs : list A) (tail : option exn) 
 Definition node_select (h : heap) (self : oid) (p : str) : gtrace oid :=
   g_of_result (
     do x <- h_get h self;
-    match o_class x with
-    | CSeg => Ok g_nil
-    | CLoop =>
-        do r <- select_from h self p;
-        Ok (checked (select_check h (fst r)) (fst (snd r)) (snd (snd r)))
-    end).
+    (* fix 0757aa5: X12SegmentDataNode no longer overrides select *)
+    do r <- select_from h self p;
+    Ok (checked (select_check h (fst r)) (fst (snd r)) (snd (snd r)))).
 
 (* first (132-145) *)
 Definition node_first (h : heap) (self : oid) (p : str) : result (option oid) :=
@@ -526,36 +523,6 @@ Definition node_first (h : heap) (self : oid) (p : str) : result (option oid) :=
 
 Definition conv_engine (e : exn) : exn := match e with EngineError => X12PathError | _ => e end.
 Definition try_engine {A} (r : result A) : result A := match r with Raise e => Raise (conv_engine e) | _ => r end.
-
-(* X12SegmentDataNode.get_first_matching_segment (633-662) *)
-Definition seg_gfms (h : heap) (self : oid) (p : str) : result (option oid) :=
-  do cp <- get_start_node h self p;
-  do xp <- parse_path (snd cp);
-  match loop_list xp with
-  | _ :: _ => Raise X12PathError
-  | [] =>
-      do me <- h_get h self;
-      match ele_idx xp, seg_id xp with
-      | Some _, None => Ok (match o_seg me with Some _ => Some self | None => None end)     (* 652-653 *)
-      | _, _ =>
-          match fst cp with
-          | RObj c =>
-              do cx <- h_get h c;
-              match o_map cx with
-              | None => Raise AttributeError                        (* None.is_match_qual *)
-              | Some mn =>
-                  do v <- mn_view mn;
-                  match v, o_seg cx with
-                  | MNode (NSeg _), Some sd =>
-                      do b <- try_engine (mn_is_match_qual mn (sd_x sd) (seg_id xp) (id_val xp));
-                      Ok (if b then Some c else None)
-                  | _, _ => Raise AttributeError                    (* loop_if / map_if have no is_match_qual *)
-                  end
-              end
-          | _ => Raise AttributeError
-          end
-      end
-  end.
 
 (* X12LoopDataNode.get_first_matching_segment (473-511).  Fuel: every recursive call is made with
    the printed path minus its first loop; the number of loops of a path is at most the length of
@@ -608,6 +575,51 @@ Fixpoint loop_gfms (fuel : nat) (h : heap) (self : oid) (p : str) : result (opti
               end
           end
       end
+  end.
+
+(* X12SegmentDataNode.get_first_matching_segment (633-662) *)
+Definition seg_gfms_here (h : heap) (self : oid) (cp : pyref * str) : result (option oid) :=
+  do xp <- parse_path (snd cp);
+  match loop_list xp with
+  | _ :: _ => Raise X12PathError
+  | [] =>
+      do me <- h_get h self;
+      match ele_idx xp, seg_id xp with
+      | Some _, None => Ok (match o_seg me with Some _ => Some self | None => None end)     (* 652-653 *)
+      | _, _ =>
+          match fst cp with
+          | RObj c =>
+              do cx <- h_get h c;
+              match o_map cx with
+              | None => Raise AttributeError                        (* None.is_match_qual *)
+              | Some mn =>
+                  do v <- mn_view mn;
+                  match v, o_seg cx with
+                  | MNode (NSeg _), Some sd =>
+                      do b <- try_engine (mn_is_match_qual mn (sd_x sd) (seg_id xp) (id_val xp));
+                      Ok (if b then Some c else None)
+                  | _, _ => Raise AttributeError                    (* loop_if / map_if have no is_match_qual *)
+                  end
+              end
+          | _ => Raise AttributeError
+          end
+      end
+  end.
+
+Definition seg_gfms (h : heap) (self : oid) (p : str) : result (option oid) :=
+  do cp <- get_start_node h self p;
+  (* fix 0757aa5: `if curr is not self: return curr.get_first_matching_segment(new_path_str)` *)
+  match fst cp with
+  | RObj c0 =>
+      if negb (Nat.eqb c0 self) then
+        do cx0 <- h_get h c0;
+        match o_class cx0 with
+        | CLoop => loop_gfms (S (length (snd cp))) h c0 (snd cp)
+        | CSeg => Raise OtherError             (* the parent of a node is never a segment node *)
+        end
+      else seg_gfms_here h self cp
+  | RNone => Raise AttributeError              (* not reachable: _get_start_node raises on a None parent *)
+  | RList _ => Raise AttributeError            (* a list has no get_first_matching_segment *)
   end.
 
 (* curr.get_first_matching_segment(path) for whatever `curr` is *)
